@@ -80,6 +80,7 @@ def coq_build(targets=None, timeout=3000):
     """
     lock = _lock()
     try:
+        sh(str(VERIF / "tools" / "coqproject.sh"), timeout=60)
         if not (COQ / "Makefile").exists() or (
             (COQ / "_CoqProject").stat().st_mtime > (COQ / "Makefile").stat().st_mtime
         ):
